@@ -716,15 +716,21 @@ def set_maskbits(idlutils_version='v5_5_33', maskbits_file=None):
     #
     # Parse the file & cache the results in maskbits
     #
+    #
+    # Groups and labels are looked up in upper case, so they are stored
+    # in upper case whatever their spelling in the file.
+    #
     maskbits = dict()
     for k in range(maskfile.size('MASKBITS')):
-        if maskfile['MASKBITS']['flag'][k] in maskbits:
-            maskbits[maskfile['MASKBITS']['flag'][k]][maskfile['MASKBITS']['label'][k]] = maskfile['MASKBITS']['bit'][k]
+        flag = maskfile['MASKBITS']['flag'][k].upper()
+        label = maskfile['MASKBITS']['label'][k].upper()
+        if flag in maskbits:
+            maskbits[flag][label] = maskfile['MASKBITS']['bit'][k]
         else:
-            maskbits[maskfile['MASKBITS']['flag'][k]] = {maskfile['MASKBITS']['label'][k]: maskfile['MASKBITS']['bit'][k]}
+            maskbits[flag] = {label: maskfile['MASKBITS']['bit'][k]}
     if 'MASKALIAS' in maskfile:
         for k in range(maskfile.size('MASKALIAS')):
-            maskbits[maskfile['MASKALIAS']['alias'][k]] = maskbits[maskfile['MASKALIAS']['flag'][k]].copy()
+            maskbits[maskfile['MASKALIAS']['alias'][k].upper()] = maskbits[maskfile['MASKALIAS']['flag'][k].upper()].copy()
     return maskbits
 
 
